@@ -29,7 +29,8 @@ def PC.claimed : PC → Bool
 /-- A stored (or locally held) record of mapping `n` agrees with the ghost origin of `n`. -/
 def RecOK (upds : List (Nat × String × Nat)) (s : Store) (n : Nat) (r : Rec) : Prop :=
   ∃ o, s.born n = some o ∧ r.FullDomain = o.dom ∧ r.ClientID = o.client ∧ r.ID = mappingID n ∧
-    ((r.TargetHost = o.thost ∧ r.TargetPort = o.tport) ∨ (n, r.TargetHost, r.TargetPort) ∈ upds)
+    ((r.TargetHost = o.thost ∧ r.TargetPort = o.tport) ∨ (n, r.TargetHost, r.TargetPort) ∈ upds) ∧
+    s.written n = true
 
 def DelL (upds : List (Nat × String × Nat)) (s : Store) (n cl : Nat) (r : Rec) : Prop :=
   (n, cl) ∈ s.delReq ∧ r.ClientID = cl ∧ RecOK upds s n r
@@ -41,11 +42,13 @@ def LInv (cf : Config) (upds : List (Nat × String × Nat)) (s : Store) : Op →
   | _, .idle => True
   | .create _ _ _ _ _, .cIncr => True
   | .create _ _ _ _ _, .cSetNX n => 1 ≤ n ∧ n ≤ s.next ∧ s.born n = none
-  | .create cl sub base th tp, .cSetData n => s.born n = some ⟨sub ++ "." ++ base, cl, th, tp⟩
+  | .create cl sub base th tp, .cSetData n => s.born n = some ⟨sub ++ "." ++ base, cl, th, tp⟩ ∧ s.written n = false
   | .create cl sub base th tp, .cAppC n =>
-      s.born n = some ⟨sub ++ "." ++ base, cl, th, tp⟩ ∧ ((n, cl) ∉ s.delReq → (s.data n).isSome = true)
+      s.born n = some ⟨sub ++ "." ++ base, cl, th, tp⟩ ∧ ((n, cl) ∉ s.delReq → (s.data n).isSome = true) ∧
+        s.written n = true
   | .create cl sub base th tp, .cAppG n =>
-      s.born n = some ⟨sub ++ "." ++ base, cl, th, tp⟩ ∧ ((n, cl) ∉ s.delReq → (s.data n).isSome = true)
+      s.born n = some ⟨sub ++ "." ++ base, cl, th, tp⟩ ∧ ((n, cl) ∉ s.delReq → (s.data n).isSome = true) ∧
+        s.written n = true
   | .del n cl, .dGet => (n, cl) ∈ s.delReq
   | .del n cl, .dClaim r => DelL upds s n cl r ∧ cf.variant = .repaired
   | .del n cl, .dIdxGet r => DelL upds s n cl r ∧ cf.variant = .repaired ∧ s.claims n = true
@@ -57,8 +60,8 @@ def LInv (cf : Config) (upds : List (Nat × String × Nat)) (s : Store) : Op →
   | .del n cl, .dRelease =>
       (n, cl) ∈ s.delReq ∧ cf.variant = .repaired ∧ s.claims n = true ∧ Unindexed s n ∧ (∃ o', s.born n = some o')
   | .upd _ _ _ _ _, .uGet0 => True
-  | .upd n _ _ _ _, .uGet1 r => RecOK upds s n r
-  | .upd n _ _ _ _, .uSet r => RecOK upds s n r
+  | .upd n st e _ _, .uGet1 r => RecOK upds s n r ∧ r.Status = st ∧ r.ExpiresAt = e
+  | .upd n st e _ _, .uSet r => RecOK upds s n r ∧ r.Status = st ∧ r.ExpiresAt = e
   | .look _, .lIdx => True
   | .look h, .lData n => ∃ o, s.born n = some o ∧ o.dom = extractDomain h
   | .look _, .lCloud => True
@@ -83,6 +86,8 @@ structure Inv (cf : Config) (ops : List Op) (exts : List PM) (c : Cfg) : Prop wh
   uniqId : ∀ t t' n, t ≠ t' → (c.th t).pc.createId = some n → (c.th t').pc.createId ≠ some n
   uniqClaim : cf.variant = .repaired → ∀ t t' n, t ≠ t' → InClaimed (c.th t) n → ¬ InClaimed (c.th t') n
   cloudSub : ∀ m, m ∈ cf.cloud → m ∈ exts
+  wBorn : ∀ n, c.st.written n = true → ∃ o, c.st.born n = some o
+  g2 : ∀ n o, c.st.born n = some o → c.st.written n = false ∨ (c.st.data n).isSome = true ∨ Unindexed c.st n
   settled : ∀ n o, c.st.born n = some o → (n, o.client) ∉ c.st.delReq → (∀ t, (c.th t).pc.createId ≠ some n) →
     (c.st.data n).isSome = true
   bornDom : ∀ n o, c.st.born n = some o → o.dom ∈ createDomains ops
@@ -95,10 +100,11 @@ structure Mono (s s' : Store) : Prop where
   next : s.next ≤ s'.next
   born : ∀ n o, s.born n = some o → s'.born n = some o
   delReq : ∀ x, x ∈ s.delReq → x ∈ s'.delReq
+  written : ∀ n, s.written n = true → s'.written n = true
 
 theorem RecOK.mono {upds s s' n r} (m : Mono s s') (h : RecOK upds s n r) : RecOK upds s' n r := by
-  obtain ⟨o, ho, rest⟩ := h
-  exact ⟨o, m.born n o ho, rest⟩
+  obtain ⟨o, ho, h1, h2, h3, h4, h5⟩ := h
+  exact ⟨o, m.born n o ho, h1, h2, h3, h4, m.written n h5⟩
 
 theorem DelL.mono {upds s s' n cl r} (m : Mono s s') (h : DelL upds s n cl r) : DelL upds s' n cl r :=
   ⟨m.delReq _ h.1, h.2.1, h.2.2.mono m⟩
@@ -112,14 +118,15 @@ theorem LInv.frame {cf upds s s'} (m : Mono s s') (o : Op) (pc : PC)
     (hclaims : cf.variant = .repaired → ∀ n, (∃ cl, o = .del n cl) → pc.claimed = true → s.claims n = true → s'.claims n = true)
     (hindex : cf.variant = .repaired → ∀ n r, (∃ cl, o = .del n cl) → pc = .dIdxDel r → s.index r.FullDomain = some n → s'.index r.FullDomain = some n)
     (hunidx : ∀ n, (∃ cl, o = .del n cl) → (∃ o', s.born n = some o') → Unindexed s n → Unindexed s' n)
+    (hwr : ∀ n, pc.createId = some n → s.written n = false → s'.written n = false)
     (h : LInv cf upds s o pc) : LInv cf upds s' o pc := by
   cases o with
   | create cl sub base th tp =>
     cases pc <;> simp only [LInv] at h ⊢ <;> try trivial
     · exact ⟨h.1, Nat.le_trans h.2.1 m.next, hborn _ rfl h.2.2⟩
-    · exact m.born _ _ h
-    · refine ⟨m.born _ _ h.1, fun hn => hdata _ _ h.1 hn rfl (h.2 (fun hm => hn (m.delReq _ hm)))⟩
-    · refine ⟨m.born _ _ h.1, fun hn => hdata _ _ h.1 hn rfl (h.2 (fun hm => hn (m.delReq _ hm)))⟩
+    · exact ⟨m.born _ _ h.1, hwr _ rfl h.2⟩
+    · refine ⟨m.born _ _ h.1, fun hn => hdata _ _ h.1 hn rfl (h.2.1 (fun hm => hn (m.delReq _ hm))), m.written _ h.2.2⟩
+    · refine ⟨m.born _ _ h.1, fun hn => hdata _ _ h.1 hn rfl (h.2.1 (fun hm => hn (m.delReq _ hm))), m.written _ h.2.2⟩
   | del n cl =>
     have hb : ∀ r, DelL upds s n cl r → ∃ o', s.born n = some o' := fun r hd => ⟨_, hd.2.2.choose_spec.1⟩
     cases pc <;> simp only [LInv] at h ⊢ <;> try trivial
@@ -134,8 +141,8 @@ theorem LInv.frame {cf upds s s'} (m : Mono s s') (o : Op) (pc : PC)
       exact ⟨m.delReq _ h.1, h.2.1, hclaims h.2.1 n ⟨cl, rfl⟩ rfl h.2.2.1, hunidx n ⟨cl, rfl⟩ ⟨o', ho'⟩ h.2.2.2.1, ⟨o', m.born _ _ ho'⟩⟩
   | upd n st e th tp =>
     cases pc <;> simp only [LInv] at h ⊢ <;> try trivial
-    · exact h.mono m
-    · exact h.mono m
+    · exact ⟨h.1.mono m, h.2⟩
+    · exact ⟨h.1.mono m, h.2⟩
   | look host =>
     cases pc <;> simp only [LInv] at h ⊢ <;> try trivial
     obtain ⟨o, ho, hd⟩ := h
